@@ -2,7 +2,7 @@
    paths).  Only statements closed by `exact <lemma>` and their Print Assumptions.
    Model: Model/Collect.v (quirk-parametric), specification: Model/CollectSpec.v. *)
 From TL Require Import Lib.Base Model.CollectStr Model.Glob Gen.CollectGen Model.Collect Model.CollectSpec
-     Proofs.GlobFacts Proofs.CollectTables Proofs.CollectIgnoreStr Proofs.CollectWalk Proofs.CollectIgnore Proofs.CollectMain.
+     Actual.CollectActual Proofs.GlobFacts Proofs.CollectTables Proofs.CollectIgnoreStr Proofs.CollectWalk Proofs.CollectIgnore Proofs.CollectMain.
 
 (* 1. What _collect_files_fast collects, for every tree (induction on the tree): a path is collected iff
       it is a regular file of the tree, no directory between the target and the file is always-excluded,
@@ -39,6 +39,26 @@ Theorem C14_parallel_equals_sequential : forall q recursive abs rel t s,
   run_dir_par q recursive abs rel t s = run_dir q recursive abs rel t s.
 Proof. exact run_dir_par_eq. Qed.
 Print Assumptions C14_parallel_equals_sequential.
+
+(* 2c. The vector claimed for the current tree (Actual/CollectActual.v: every flag off since the fixes b20520c, 27377de,
+       bbae54e, 9c8f928; the model then runs the functions generated from the source): no guard left. *)
+Theorem C14_dir_run_exact_current_tree : forall recursive abs rel t S,
+  rel_ok rel = true -> target_ok t = true -> tsources_ok S = true ->
+  run_dir collect_actual recursive abs rel t (render_sources S) = spec_dir recursive rel t S.
+Proof. exact run_dir_exact_actual. Qed.
+Print Assumptions C14_dir_run_exact_current_tree.
+
+Theorem C14_parallel_dir_run_exact_current_tree : forall recursive abs rel t S,
+  rel_ok rel = true -> target_ok t = true -> tsources_ok S = true ->
+  run_dir_par collect_actual recursive abs rel t (render_sources S) = spec_dir recursive rel t S.
+Proof. exact run_dir_par_exact_actual. Qed.
+Print Assumptions C14_parallel_dir_run_exact_current_tree.
+
+Theorem C14_named_files_exact_current_tree : forall abs S ps,
+  tsources_ok S = true -> forallb path_ok ps = true ->
+  run_files collect_actual abs (render_sources S) ps = spec_files S ps.
+Proof. exact run_files_exact_actual. Qed.
+Print Assumptions C14_named_files_exact_current_tree.
 
 (* 3. Files named explicitly go through the same gates. *)
 Theorem C14_named_files_exact : forall q abs S ps,
@@ -94,12 +114,13 @@ Theorem C14_glob_literal : forall name pat, plain (la pat) -> fnm name pat = Str
 Proof. exact fnm_literal. Qed.
 Print Assumptions C14_glob_literal.
 
-(* what the code does with "name/" today: component membership (file name included) or a bare prefix match *)
-Theorem C14_dirpattern_as_implemented : forall q path n,
+(* what the code did with "name/" before fix 9c8f928 (the two directory-pattern flags on): component membership
+   (file name included) or a bare prefix match *)
+Theorem C14_dirpattern_former_defect : forall q path n,
   q_dirpat_prefix q = true -> q_dirpat_filename q = true -> lit_ok n = true ->
   match_dir q path (n ++ "/") = smem n (path_parts path) || starts_with path n.
-Proof. exact dirpattern_actual. Qed.
-Print Assumptions C14_dirpattern_as_implemented.
+Proof. exact dirpattern_former. Qed.
+Print Assumptions C14_dirpattern_former_defect.
 
 (* 6. The tables found in the source are the always-excluded names / compiled suffixes of the specification. *)
 Theorem C14_excluded_dirs_table : forall n, smem n excluded_dirs = smem n spec_excluded_dirs.
@@ -110,12 +131,13 @@ Theorem C14_excluded_exts_table : forall n, smem n excluded_exts = smem n spec_c
 Proof. exact excluded_exts_table. Qed.
 Print Assumptions C14_excluded_exts_table.
 
+(* GHard = _is_hardcoded_excluded applied to the path inside the project (fix b20520c) *)
 Theorem C14_lint_file_gates : lint_gates = [GHard; GIgnored].
 Proof. exact lint_gates_spec. Qed.
 Print Assumptions C14_lint_file_gates.
 
-(* 7. Confinement: ANY quirk vector -- in particular the one claimed for the current tree -- is exact on
-      every input outside the listed defect classes (partial: the full statements are 2 and 3). *)
+(* 7. Confinement: ANY quirk vector -- e.g. one describing a tree in which a former defect is back -- is exact on
+      every input outside the defect classes (partial: the full statements are 2 and 3). *)
 Theorem C14_dir_run_exact_partial : forall q recursive abs rel t S,
   outside_defect_classes abs (all_files recursive rel t) S ->
   rel_ok rel = true -> target_ok t = true -> tsources_ok S = true ->
